@@ -11,6 +11,7 @@ mod sqlrun;
 mod splits;
 mod dist_fault;
 mod cache;
+mod sidecar;
 mod prune;
 mod compiled;
 mod pqstats;
@@ -69,6 +70,9 @@ fn main() {
         "output-parse" => output::parse(rest),
         "output-parquet" => output::to_parquet(rest),
         "tpch-record" => tpch::record(rest),
+        "sidecar-proc" => sidecar::proc_main(rest),
+        "sidecar-orch" => sidecar::orch(rest),
+        "sidecar-stress" => sidecar::stress(rest),
         other => {
             eprintln!("unknown subcommand {other}");
             2
